@@ -156,7 +156,8 @@ class Contract:
                 I.p.oblige(f"pre@{label}.{k}", f, "pre@call")
         else:
             I.p.oblige(f"pre@{label}", pre, "pre@call")
-        if I.ctx.current_key == (self.target.split(":")[0], self.target.split(":")[1]):
+        if I.ctx.current_key == (self.target.split(":")[0], self.target.split(":")[1]) and not getattr(self, "partial_correctness", False):
+            # (partial_correctness: the contract is proved for terminating calls only; it lists the reason as an assumption)
             self.check_decreases(I, A)
         for exc_cls, cond, exc_val in self.may_raise(A, I):
             if I.p.branch(cond, f"raises@{label}:{exc_cls.__name__}"):
